@@ -92,6 +92,16 @@ class ReIterable:
         return _Cursor(self.log)
 
 
+class SizedIterable(ReIterable):
+    """A lazily produced, *sized* collection (result set / cursor wrapper): ``__iter__`` and a cheap
+    ``__len__`` but no ``__getitem__``.  ``len()`` pulls nothing and is only counted; an unbounded one
+    reports a huge length."""
+
+    def __len__(self):
+        self.log.lens += 1
+        return self.log.n if self.log.n is not None else 10 ** 9
+
+
 def counting_generator(log):
     pos = 0
     while log.pull(pos):
@@ -124,7 +134,7 @@ class LazySeq:
         return self.have
 
 
-KINDS = ('iter', 'gen', 'lazy', 'iterable')
+KINDS = ('iter', 'gen', 'lazy', 'iterable', 'sized')
 
 
 def make(kind, log):
@@ -138,6 +148,8 @@ def make(kind, log):
         return LazySeq(log)
     if kind == 'iterable':
         return ReIterable(log)
+    if kind == 'sized':
+        return SizedIterable(log)
     raise ValueError(kind)
 
 
